@@ -127,6 +127,7 @@ func VH_C01_fragRoundTrip() bool {
 	r := vNewSwarm(vInner{mtu: imtu, sent: &sent}, 64)
 	vStartReceiver(r, &got, 4)
 	// feed every fragment once, in a symbolic order
+	rbuf := make([]byte, 64) // the inner swarm recycles its receive buffer
 	left := make([]int, len(frags))
 	for i := range left {
 		left[i] = i
@@ -135,7 +136,11 @@ func VH_C01_fragRoundTrip() bool {
 		k := vInt(0, len(left)-1)
 		f := frags[left[k]]
 		left = append(left[:k], left[k+1:]...)
-		r.handleTell(context.Background(), p2p.Message[vAddr]{Src: f.src, Dst: 0, Payload: append([]byte{}, f.data...)})
+		nb := copy(rbuf, f.data)
+		r.handleTell(context.Background(), p2p.Message[vAddr]{Src: f.src, Dst: 0, Payload: rbuf[:nb]})
+		for j := range rbuf {
+			rbuf[j] = 0xEE
+		}
 	}
 	vAssert(len(got) == 1, "not-exactly-one-delivery")
 	vAssert(got[0].src == 1 && got[0].dst == 0, "addresses-not-preserved")
@@ -155,6 +160,7 @@ func VH_C01_fragTwoSources() bool {
 	var got []vGot
 	r := vNewSwarm(vInner{mtu: 16, sent: &sent}, 64)
 	vStartReceiver(r, &got, 4)
+	rbuf := make([]byte, 64) // the inner swarm recycles its receive buffer
 	left := make([]int, len(frags))
 	for i := range left {
 		left[i] = i
@@ -163,7 +169,11 @@ func VH_C01_fragTwoSources() bool {
 		k := vInt(0, len(left)-1)
 		f := frags[left[k]]
 		left = append(left[:k], left[k+1:]...)
-		r.handleTell(context.Background(), p2p.Message[vAddr]{Src: f.src, Dst: 0, Payload: append([]byte{}, f.data...)})
+		nb := copy(rbuf, f.data)
+		r.handleTell(context.Background(), p2p.Message[vAddr]{Src: f.src, Dst: 0, Payload: rbuf[:nb]})
+		for j := range rbuf {
+			rbuf[j] = 0xEE
+		}
 	}
 	vAssert(len(got) == 2, "not-exactly-two-deliveries")
 	for _, g := range got {
